@@ -422,6 +422,8 @@ class ModuleEnv:
                 raise RaiseReq('StopIteration')
             st.env[node.args[0].id] = VConst(('iterator', n_, g_, pos + 1))
             return g_(pos)
+        if name in ('list', 'tuple') and len(args) == 1 and isinstance(args[0], VConst) and isinstance(args[0].py, tuple) and args[0].py[0] == 'genresult':
+            return args[0].py[1]      # draining a contracted generator gives the list of its yields
         if name in ('list', 'tuple') and len(args) == 1 and isinstance(args[0], VList):
             return args[0]      # value semantics: a copy is indistinguishable (no aliasing in the model)
         if name == 'list' and len(args) == 1 and isinstance(args[0], VTuple):
